@@ -84,13 +84,20 @@ def run(ck):
     nplans = 400 if quick else 6000
     plans = plans[:nplans]
     cases = []
+    SCRIPTS = ["plain", "modules", "strindex", "fails", "fails2", "strinput", "stmod", "fmtlimit"]
     for i, p in enumerate(plans):
-        script = ["plain", "modules", "strindex", "fails", "fails2"][i % 5]
+        script = SCRIPTS[i % len(SCRIPTS)]
         cases.append({"id": i + 1, "plan": {str(g): ops for g, ops in p.items()}, "script": script, "reps": 3 if quick else 10})
-    racedir = ck.path("race")
-    os.makedirs(racedir, exist_ok=True)
-    res = vlib.run_cases(ck, "conc", cases, nproc=8, race=True, timeout=3000,
-                         env={"GORACE": "log_path=%s/r halt_on_error=0 exitcode=0 history_size=2" % racedir})
+    # one race log per script: a report is attributed to the script whose shared regions it can concern (the key carries the script,
+    # so a race on a string *input* is not mistaken for the recorded race on string *constants*)
+    res = {}
+    racedirs = {}
+    for script in SCRIPTS:
+        sub = [c for c in cases if c["script"] == script]
+        racedirs[script] = ck.path("race-" + script)
+        os.makedirs(racedirs[script], exist_ok=True)
+        res.update(vlib.run_cases(ck, "conc", sub, nproc=8, race=True, timeout=3000,
+                                  env={"GORACE": "log_path=%s/r halt_on_error=0 exitcode=0 history_size=2" % racedirs[script]}))
     for c in cases:
         o = res[c["id"]]
         ck.evaluations += 1
@@ -106,10 +113,11 @@ def run(ck):
         ck.traces += 1
         ck.note_distinct(c["script"] + json.dumps(c["plan"], sort_keys=True))
     nrace = 0
-    for fn in glob.glob(racedir + "/r*"):
-        for key, report in parse_races(open(fn, errors="replace").read()):
-            nrace += 1
-            ck.violation(key, "Go's race detector: unsynchronised access in d5/tengo code\n" + report, {"report": report})
+    for script, racedir in racedirs.items():
+        for fn in glob.glob(racedir + "/r*"):
+            for key, report in parse_races(open(fn, errors="replace").read()):
+                nrace += 1
+                ck.violation(key + "@" + script, "Go's race detector: unsynchronised access in d5/tengo code (script %s)\n" % script + report, {"report": report, "script": script})
     ck.extra["race_reports"] = nrace
     ck.extra["plans_executed"] = len(cases)
     if cases:
